@@ -67,8 +67,19 @@ void ::sqf::parser::sqf::parser::to_assembly(std::string_view contents, const ::
     case bison::astkind::EXPU:
     {
         auto s = std::string(node.token.contents);
+        auto size_before = set.size();
         to_assembly(contents, node.children[0], set);
-        if ((node.children[0].kind == bison::astkind::NUMBER || node.children[0].kind == bison::astkind::HEXNUMBER) && (s == "+" || s == "-"))
+        // A sign in front of a number is part of the literal. That also holds for a sign in front of a literal that
+        // already carries a sign ("- + 279"): the operand then is no NUMBER node any more, but it compiled to the push of
+        // one scalar. (Otherwise the text str prints for such code would compile to other instructions.)
+        bool operand_is_literal = node.children[0].kind == bison::astkind::NUMBER || node.children[0].kind == bison::astkind::HEXNUMBER;
+        if (!operand_is_literal && node.children[0].kind == bison::astkind::EXPU && set.size() == size_before + 1)
+        {
+            auto child_push = std::dynamic_pointer_cast<::sqf::opcodes::push>(set.back());
+            auto child_sign = std::string(node.children[0].token.contents);
+            operand_is_literal = child_push && (child_sign == "+" || child_sign == "-") && child_push->value().is<::sqf::runtime::t_scalar>();
+        }
+        if (operand_is_literal && (s == "+" || s == "-"))
         {
             if (s == "-")
             {
